@@ -30,7 +30,7 @@ ASSUMPTIONS = [
     "retention model B2 (DESIGN.md Appendix B2): prune from the oldest while id < min(pinned or newest) and policy(len, id) says so",
     "pruning policies used are pure functions of (number of retained versions, version id)",
 ]
-REQUIRED = ["mon.fresh_zone_snapshot", "mon.source_object_mutated_after_commit", "mon.reader_snapshot_stable", "mon.retained_set", "mon.version_ids", "mon.mutator_attack", "mon.serial_lookup"]
+REQUIRED = ["mon.interleaved_histories", "mon.interleaved_retention_checks", "mon.fresh_zone_snapshot", "mon.source_object_mutated_after_commit", "mon.reader_snapshot_stable", "mon.retained_set", "mon.version_ids", "mon.mutator_attack", "mon.serial_lookup"]
 BUDGET = {"quick": 40.0, "thorough": 420.0}
 
 MUTATOR_NAMES = ["add", "update", "clear", "pop", "popitem", "remove", "discard", "append", "extend", "insert", "setdefault", "__setitem__", "__delitem__",
@@ -392,8 +392,133 @@ def post_step(ctx, z, origin, btree, R, V, contents, issued, prune, tag, kind, p
     return True
 
 
+def interleaved_history(ctx, rng, inj, zname, factory):
+    """readers and writers as threads under the deterministic scheduler (vlib.mon.sched), switching at the zone's lock and event
+    operations and at injected points between statements of dns.versioned.  Whenever the zone's lock is free: every open reader's
+    version is among the retained ones, ids are strictly increasing, the newest is retained; each reader reads the same counter
+    value for its whole life, and that value is one that was committed no later than the moment reader() returned"""
+    from vlib.mon import sched as S
+
+    ctx.count("evaluations")
+    ctx.count("mon.interleaved_histories")
+    strategy = S.RandomStrategy(rng, stay=rng.choice((0.3, 0.6, 0.85))) if rng.random() < 0.6 else S.PCTStrategy(rng, 5, depth=rng.choice((1, 2, 3)), horizon=rng.choice((50, 300)))
+    line_p = rng.choice((0.05, 0.2, 0.5, 1.0))
+    pol = rng.choice(("default", "max2", "unlimited"))
+    nw, nr = rng.randint(1, 3), rng.randint(1, 4)
+    case = {"kind": "interleaved", "zone": zname, "policy": pol, "writers": nw, "readers": nr, "line_p": line_p}
+    tag = f"{zname}:interleaved"
+    sc = S.Scheduler(strategy, max_steps=40000)
+    shim = S.ShimThreading(sc)
+    saved = dns.versioned.threading
+    dns.versioned.threading = shim
+    counter_name = dns.name.from_text("counter", None)
+    open_readers = {}  # rid -> (txn, value first read)
+    bad = []
+
+    def value(txn):
+        rds = txn.get(counter_name, "TXT")
+        return None if rds is None else int(rds[0].strings[0])
+
+    try:
+        z = factory(dns.name.from_text("example."))
+        if pol == "max2":
+            z.set_max_versions(2)
+        elif pol == "unlimited":
+            z.set_max_versions(None)
+        with z.writer() as txn:
+            txn.add(dns.name.empty, 300, dns.rdata.from_text("IN", "SOA", "ns hostmaster 1 2 3 4 5"))
+            txn.add(counter_name, 0, dns.rdata.from_text("IN", "TXT", '"0"'))
+        committed = [0]  # values whose commit() has returned or is in progress
+
+        def writer(wid):
+            def body():
+                for k in range(rng.randint(1, 3)):
+                    with z.writer() as txn:
+                        v = value(txn) + 1
+                        txn.replace(counter_name, 0, dns.rdata.from_text("IN", "TXT", f'"{v}"'))
+                        sc.pause("client:wrote")
+                        committed.append(v)
+                    sc.pause("client:committed")
+            return body
+
+        def reader(rid):
+            def body():
+                for k in range(rng.randint(1, 3)):
+                    txn = z.reader()
+                    first = value(txn)
+                    open_readers[(rid, k)] = (txn, first)
+                    if first not in committed:
+                        bad.append(("reader-saw-uncommitted-value", first, list(committed)))
+                    for _ in range(rng.randint(1, 3)):
+                        sc.pause("client:reading")
+                        again = value(txn)
+                        if again != first:
+                            bad.append(("reader-snapshot-changed", first, again))
+                    del open_readers[(rid, k)]
+                    txn.rollback()
+                    sc.pause("client:closed")
+            return body
+
+        for w in range(nw):
+            sc.spawn(writer(w), f"w{w}")
+        for r in range(nr):
+            sc.spawn(reader(r), f"r{r}")
+        inj.attach(sc, lambda: rng.random() < line_p)
+        checks = [0]
+
+        def on_step(s_):
+            if bad:
+                return
+            locks = [v for v in vars(z).values() if isinstance(v, S.ShimLock)]
+            if not locks or any(l.locked_by is not None for l in locks):
+                return
+            checks[0] += 1
+            ids = [v.id for v in z._versions]
+            if ids != sorted(set(ids)):
+                bad.append(("version-ids-not-strictly-increasing", ids))
+                return
+            for key, (txn, first) in list(open_readers.items()):
+                if not any(v is txn.version for v in z._versions):
+                    bad.append(("open-reader-on-a-version-that-is-not-retained", txn.version.id, ids))
+                    return
+
+        try:
+            sc.run(on_step)
+        except S.Deadlock as e:
+            ctx.violation(f"deadlock-or-lost-wakeup:{tag}", str(e), dict(case, choices=sc.choices[:400]))
+            return
+        except (S.StepLimit, S.Stall) as e:
+            ctx.mark_inconclusive(f"schedule exceeded step limit: {e}")
+            return
+        finally:
+            inj.detach()
+        ctx.count("mon.interleaved_retention_checks", checks[0])
+        for t in sc.threads:
+            if t.exc is not None:
+                ctx.violation(f"thread-raised:{tag}:" + core.exc_sig(t.exc), repr(t.exc), dict(case, choices=sc.choices[:400]))
+                return
+        if bad:
+            ctx.violation(f"{bad[0][0]}:{tag}", f"{bad[0][1:]} policy {pol}", dict(case, choices=sc.choices[:400]))
+            return
+        ctx.seen(("interleaved", zname, pol) + tuple(sc.trace_key())[:12])
+    finally:
+        dns.versioned.threading = saved
+
+
 def run(spec, ctx):
     rng = ctx.rng
+    from vlib.mon import sched as S
+
+    inj = S.LineInjector().watch(dns.versioned)
+    inj.install()
+    try:
+        for i in range(spec["n"] * 3):
+            if ctx.expired(0.3):
+                break
+            zname, factory = (("versioned", dns.versioned.Zone), ("btree", dns.btreezone.Zone))[i % 2]
+            interleaved_history(ctx, rng, inj, zname, factory)
+    finally:
+        inj.uninstall()
     for i in range(spec["n"]):
         if ctx.expired(1.0):
             break
